@@ -3,6 +3,7 @@
 import glob
 import json
 import os
+import re
 
 VERIF = os.path.dirname(os.path.dirname(os.path.dirname(os.path.abspath(__file__))))
 rows = []
@@ -14,10 +15,24 @@ for d in sorted(glob.glob(os.path.join(VERIF, 'seeded', '*'))):
     c = m.get('confirmed_by_main_session', {})
     chk = c.get('check', {})
     how = 'failing input' if chk.get('with_failing_input') else ('no-failing-input-found' if chk.get('caught') else 'MISSED')
-    rows.append('| %s | %s | %s | %s | %s |' % (
-        os.path.basename(d), m.get('property', c.get('property')),
-        str(m.get('summary', '')).replace('|', '/').replace('\n', ' ')[:170],
-        str(m.get('needs', '')).replace('|', '/').replace('\n', ' ')[:150], how))
-print('| seeded change | property | what was changed | needs | check.py <ID> --quick |')
-print('|---|---|---|---|---|')
+    line = ' '.join(chk.get('lines', []))
+    g = re.search(r'prove=(\w+).*mismatches=(\d+) spec_failures=(\d+)', line)
+    by = []
+    if g:
+        if g.group(1) != 'True':
+            by.append('PROVE')
+        if int(g.group(2)):
+            by.append('CORR %s' % g.group(2))
+        if int(g.group(3)):
+            by.append('monitor %s' % g.group(3))
+    first = c.get('first_run_before_strengthening', {}).get('check', c.get('first_run_before_strengthening', {}))
+    note = ''
+    if first and not first.get('with_failing_input', True):
+        note = 'missed at first' if not first.get('caught') else 'at first without failing input'
+    rows.append('| %s | %s | %s | %s | %s | %s |' % (
+        os.path.basename(d),
+        str(m.get('summary', '')).replace('|', '/').replace('\n', ' ')[:150],
+        str(m.get('needs', '')).replace('|', '/').replace('\n', ' ')[:110], how, ', '.join(by), note))
+print('| seeded change | what was changed | needs | `check.py <ID> --quick` | raised by | history |')
+print('|---|---|---|---|---|---|')
 print('\n'.join(rows))
